@@ -24,6 +24,15 @@ pub fn from_utf8_ascii(v: &[u8]) -> Result<&str, core::str::Utf8Error> {
     Ok(unsafe { core::str::from_utf8_unchecked(v) })
 }
 
+#[cfg(kani)]
+pub fn string_from_utf8_ascii(v: Vec<u8>) -> Result<String, std::string::FromUtf8Error> {
+    let i: usize = kani::any();
+    if i < v.len() {
+        assert!(v[i] < 0x80, "STUB: String::from_utf8 stub is only exact on 7-bit input");
+    }
+    Ok(unsafe { String::from_utf8_unchecked(v) })
+}
+
 macro_rules! harnesses {
     ($( $(#[$attr:meta])* $name:ident, unwind = $u:literal, raw = $k:literal, $f:expr; )*) => {
         $(
@@ -191,26 +200,80 @@ harnesses! {
 
     // ---- C10: escaping kernels
     x10_parse_number, unwind = 13, raw = 11, |r| check_parse_number(r);
+    #[kani::stub(core::str::from_utf8, from_utf8_ascii)]
+    #[kani::stub(alloc::string::String::from_utf8, string_from_utf8_ascii)]
     x10_unescape_n3,  unwind = 6,  raw = 4,  |r| check_unescape::<3>(r);
+    #[kani::stub(core::str::from_utf8, from_utf8_ascii)]
+    #[kani::stub(alloc::string::String::from_utf8, string_from_utf8_ascii)]
     x10_unescape_n4,  unwind = 7,  raw = 5,  |r| check_unescape::<4>(r);
+    #[kani::stub(core::str::from_utf8, from_utf8_ascii)]
+    #[kani::stub(alloc::string::String::from_utf8, string_from_utf8_ascii)]
+    x10_unesc_s1a,    unwind = 8,  raw = 4,  |r| check_unescape_shape(r, b"&?t;");
+    #[kani::stub(core::str::from_utf8, from_utf8_ascii)]
+    #[kani::stub(alloc::string::String::from_utf8, string_from_utf8_ascii)]
+    x10_unesc_s1b,    unwind = 8,  raw = 4,  |r| check_unescape_shape(r, b"&l?;");
+    #[kani::stub(core::str::from_utf8, from_utf8_ascii)]
+    #[kani::stub(alloc::string::String::from_utf8, string_from_utf8_ascii)]
+    x10_unesc_n1,     unwind = 8,  raw = 4,  |r| check_unescape_shape(r, b"&#?;");
+    #[kani::stub(core::str::from_utf8, from_utf8_ascii)]
+    #[kani::stub(alloc::string::String::from_utf8, string_from_utf8_ascii)]
+    x10_unesc_h1,     unwind = 9,  raw = 4,  |r| check_unescape_shape(r, b"&#x?;");
+    #[kani::stub(core::str::from_utf8, from_utf8_ascii)]
+    #[kani::stub(alloc::string::String::from_utf8, string_from_utf8_ascii)]
     x10_unesc_s2,     unwind = 8,  raw = 4,  |r| check_unescape_shape(r, b"&??;");
+    #[kani::stub(core::str::from_utf8, from_utf8_ascii)]
+    #[kani::stub(alloc::string::String::from_utf8, string_from_utf8_ascii)]
     x10_unesc_s3,     unwind = 9,  raw = 4,  |r| check_unescape_shape(r, b"&???;");
+    #[kani::stub(core::str::from_utf8, from_utf8_ascii)]
+    #[kani::stub(alloc::string::String::from_utf8, string_from_utf8_ascii)]
     x10_unesc_s4,     unwind = 10, raw = 4,  |r| check_unescape_shape(r, b"&????;");
+    #[kani::stub(core::str::from_utf8, from_utf8_ascii)]
+    #[kani::stub(alloc::string::String::from_utf8, string_from_utf8_ascii)]
     x10_unesc_num,    unwind = 9,  raw = 4,  |r| check_unescape_shape(r, b"&#??;");
+    #[kani::stub(core::str::from_utf8, from_utf8_ascii)]
+    #[kani::stub(alloc::string::String::from_utf8, string_from_utf8_ascii)]
     x10_unesc_hex,    unwind = 10, raw = 4,  |r| check_unescape_shape(r, b"&#x??;");
+    #[kani::stub(core::str::from_utf8, from_utf8_ascii)]
+    #[kani::stub(alloc::string::String::from_utf8, string_from_utf8_ascii)]
     x10_unesc_two,    unwind = 10, raw = 4,  |r| check_unescape_shape(r, b"?&lt;?&");
+    #[kani::stub(core::str::from_utf8, from_utf8_ascii)]
+    #[kani::stub(alloc::string::String::from_utf8, string_from_utf8_ascii)]
     x10_esc_full_1,   unwind = 12,  raw = 1,  |r| check_escape1(r, 0, b"x", 0);
+    #[kani::stub(core::str::from_utf8, from_utf8_ascii)]
+    #[kani::stub(alloc::string::String::from_utf8, string_from_utf8_ascii)]
     x10_esc_part_1,   unwind = 12,  raw = 1,  |r| check_escape1(r, 1, b"x", 0);
+    #[kani::stub(core::str::from_utf8, from_utf8_ascii)]
+    #[kani::stub(alloc::string::String::from_utf8, string_from_utf8_ascii)]
     x10_esc_min_1,    unwind = 12,  raw = 1,  |r| check_escape1(r, 2, b"x", 0);
+    #[kani::stub(core::str::from_utf8, from_utf8_ascii)]
+    #[kani::stub(alloc::string::String::from_utf8, string_from_utf8_ascii)]
     x10_esc_full_mid, unwind = 16, raw = 1,  |r| check_escape1(r, 0, b"<x>", 1);
+    #[kani::stub(core::str::from_utf8, from_utf8_ascii)]
+    #[kani::stub(alloc::string::String::from_utf8, string_from_utf8_ascii)]
     x10_esc_full_end, unwind = 16, raw = 1,  |r| check_escape1(r, 0, b"a&x", 2);
+    #[kani::stub(core::str::from_utf8, from_utf8_ascii)]
+    #[kani::stub(alloc::string::String::from_utf8, string_from_utf8_ascii)]
     x10_esc_part_mid, unwind = 16, raw = 1,  |r| check_escape1(r, 1, b"\"x'", 1);
+    #[kani::stub(core::str::from_utf8, from_utf8_ascii)]
+    #[kani::stub(alloc::string::String::from_utf8, string_from_utf8_ascii)]
     x10_esc_min_mid,  unwind = 16, raw = 1,  |r| check_escape1(r, 2, b">x<", 1);
+    #[kani::stub(core::str::from_utf8, from_utf8_ascii)]
+    #[kani::stub(alloc::string::String::from_utf8, string_from_utf8_ascii)]
     x10_inv_lt,   unwind = 12, raw = 1, |r| check_unescape_entity(r, 0);
+    #[kani::stub(core::str::from_utf8, from_utf8_ascii)]
+    #[kani::stub(alloc::string::String::from_utf8, string_from_utf8_ascii)]
     x10_inv_gt,   unwind = 12, raw = 1, |r| check_unescape_entity(r, 1);
+    #[kani::stub(core::str::from_utf8, from_utf8_ascii)]
+    #[kani::stub(alloc::string::String::from_utf8, string_from_utf8_ascii)]
     x10_inv_amp,  unwind = 12, raw = 1, |r| check_unescape_entity(r, 2);
+    #[kani::stub(core::str::from_utf8, from_utf8_ascii)]
+    #[kani::stub(alloc::string::String::from_utf8, string_from_utf8_ascii)]
     x10_inv_apos, unwind = 12, raw = 1, |r| check_unescape_entity(r, 3);
+    #[kani::stub(core::str::from_utf8, from_utf8_ascii)]
+    #[kani::stub(alloc::string::String::from_utf8, string_from_utf8_ascii)]
     x10_inv_quot, unwind = 12, raw = 1, |r| check_unescape_entity(r, 4);
+    #[kani::stub(core::str::from_utf8, from_utf8_ascii)]
+    #[kani::stub(alloc::string::String::from_utf8, string_from_utf8_ascii)]
     x10_inv_mixed, unwind = 20, raw = 1, |r| check_unescape_entity(r, 5);
 
     // ---- C11: one Attributes::next() from an arbitrary iterator state; raw = 5 + 2*K + N
